@@ -322,6 +322,7 @@ type nd struct {
 	tick  chan time.Time
 	st    *standin
 	loop  chan struct{} // closed when the commit loop of this life ended
+	replayDone chan struct{} // closed when readReplayForReplication of this life returned
 }
 
 type cluster struct {
@@ -369,7 +370,12 @@ func newCluster(root string, n int) *cluster {
 }
 
 // start (or restart) node i on directory dir.
-func (cl *cluster) start(i int, dir string) (err error) {
+func (cl *cluster) start(i int, dir string) (err error) { return cl.startMode(i, dir, false) }
+
+// startMode: late = the replayed entries wait at a gate (the caller opens it with releaseReplay)
+// while the node is already up: engine.startRaftNode starts the commit loop before its caller
+// runs readReplayForReplication.
+func (cl *cluster) startMode(i int, dir string, late bool) (err error) {
 	x := cl.nodes[i]
 	if perr := safe(func() {
 		x.dir = dir
@@ -377,6 +383,9 @@ func (cl *cluster) start(i int, dir string) (err error) {
 			return
 		}
 		x.st = newStandin(dir)
+		if late {
+			x.st.replayGate = make(chan struct{})
+		}
 		x.store, err = raftlog.Init(filepath.Join(dir, "wal"), cl.sync)
 		if err != nil {
 			return
@@ -411,7 +420,16 @@ func (cl *cluster) start(i int, dir string) (err error) {
 			defer close(done)
 			engine.VerifReadCommitFromRaft(rn, cl.meta, st)
 		}(x.loop, x.st)
-		engine.VerifReadReplay(replayC, cl.meta, x.st, dbName, uint32(i))
+		x.replayDone = make(chan struct{})
+		if late {
+			go func(done chan struct{}, st *standin) {
+				defer close(done)
+				engine.VerifReadReplay(replayC, cl.meta, st, dbName, uint32(i))
+			}(x.replayDone, x.st)
+		} else {
+			engine.VerifReadReplay(replayC, cl.meta, x.st, dbName, uint32(i))
+			close(x.replayDone)
+		}
 	}); perr != "" {
 		return errors.New(perr)
 	}
@@ -426,24 +444,14 @@ func (cl *cluster) kill(i int) (string, error) {
 	cl.mu.Lock()
 	x.up = false
 	cl.mu.Unlock()
-	st := x.st
-	st.mu.Lock()
-	if st.gate != nil {
-		close(st.gate)
-		st.gate = nil
-	}
-	if st.replayGate != nil {
-		close(st.replayGate)
-		st.replayGate = nil
-	}
-	st.mu.Unlock()
-	// Stop + Close change nothing in the files (Close = sync + close of the descriptors): the directory
-	// is the image a SIGKILL between two steps leaves; the next life opens it again.
-	x.rn.Stop()
-	select {
-	case <-x.loop:
-	case <-time.After(5 * time.Second):
-	}
+	// an apply that waits at a gate of this life waits for ever (the goroutine is the dead process's)
+	// Cancel + Close change nothing in the files (Close = sync + close of the descriptors): the
+	// directory is the image a SIGKILL between two steps leaves; the next life opens it again.
+	// (RaftNode.Stop would close channels serveChannels may be sending on.) The raft node's own
+	// loop ends when serveChannels sees the cancelled context between two Ready rounds.
+	rn := x.rn
+	rn.VerifCancel()
+	waitFor(20*time.Second, func() bool { return rn.VerifStatus().ID == 0 })
 	_ = safe(func() { x.store.Close() })
 	x.rn, x.eng, x.store = nil, nil, nil
 	return x.dir, nil
@@ -467,12 +475,29 @@ func copyDir(src, dst string) error {
 	})
 }
 
+// releaseReplay opens the replay gate of node i and waits for the replay to end.
+func (cl *cluster) releaseReplay(i int) bool {
+	x := cl.nodes[i]
+	x.st.mu.Lock()
+	if x.st.replayGate != nil {
+		close(x.st.replayGate)
+		x.st.replayGate = nil
+	}
+	x.st.mu.Unlock()
+	select {
+	case <-x.replayDone:
+		return true
+	case <-time.After(60 * time.Second):
+		return false
+	}
+}
+
 func (cl *cluster) tickNode(i, k int) error {
 	x := cl.nodes[i]
 	for j := 0; j < k; j++ {
 		select {
 		case x.tick <- time.Time{}:
-		case <-time.After(5 * time.Second):
+		case <-time.After(90 * time.Second):
 			return fmt.Errorf("node %d does not take a tick", i)
 		}
 	}
